@@ -10,7 +10,7 @@
      is_v2 ver                         the balance-version string selects the incremental algorithm
      even_topology nodes k             every data centre that occurs has exactly k nodes
      dcs_of nodes / node_dc nodes x    the sorted data-centre names / the data centre of node x  *)
-From ZV Require Import Common.Bytes Part.Model Place.Consts Place.Model Place.Proofs Place.ProofsV2.
+From ZV Require Import Common.Bytes Part.Model Place.Consts Place.Model Place.Proofs Place.ProofsV2 Place.SweepDefs Place.ProofsV2Fresh.
 From Coq Require Import Permutation.
 Open Scope nat_scope.
 
@@ -84,6 +84,37 @@ Theorem C17_v1_leader_balance : forall ver ns m r olds nodes l x,
   count_occ name_dec (leaders l) x = m.
 Proof. exact rebalance_v1_leader_balance. Qed.
 Print Assumptions C17_v1_leader_balance.
+
+(* (6) incremental algorithm (the placement driver's default), fresh layout, nodes evenly spread over at
+   least r data centres: no two replicas of a partition share a data centre — for the whole range the
+   property quantifies over (<= 40 nodes, <= 4 data centres, <= 64 partitions; r <= #DCs). Proof: the run on
+   an arbitrary ring is the relabelling of the run on the canonical ring (ids are only compared for
+   equality), and the canonical runs are swept exhaustively by vm_compute (Place/Sweep*.v: every rotation,
+   every p; they also show that the fill phase leaves balanced load maps, so no move happens). *)
+Theorem C17_v2_fresh_dc_spread : forall ver ns p r nodes k l,
+  is_v2 ver = true -> NoDup (map fst nodes) -> ~ In [] (map fst nodes) -> nodes <> [] ->
+  even_topology nodes k -> N.to_nat r <= length (dcs_of nodes) ->
+  length (dcs_of nodes) <= 4 -> length nodes <= 40 -> (p <= 64)%N ->
+  rebalance ver ns p r [] nodes = Ok l ->
+  Forall (fun nl => NoDup (map (node_dc nodes) nl)) l.
+Proof. exact rebalance_v2_fresh_dc_spread. Qed.
+Print Assumptions C17_v2_fresh_dc_spread.
+
+(* (6') the canonical fact behind (6), with its bound: d data centres of k nodes, rotation hm, p partitions *)
+Theorem C17_v2_fresh_canonical_sweep : forall d k r hm p,
+  2 <= r <= d -> d <= 4 -> 1 <= k -> d * k <= 40 -> hm < d * k -> 1 <= p <= 64 ->
+  check_one d k r hm p = true.
+Proof. exact check_in_range. Qed.
+Print Assumptions C17_v2_fresh_canonical_sweep.
+
+(* the same claim without the size bounds is NOT proved here (no counter-example is known: a simulation of
+   the algorithm up to 45 nodes, 100 partitions, r <= 12 finds every fresh list to be a window of r
+   cyclically consecutive ring positions); it is outside the range the property quantifies over *)
+Definition C17_v2_fresh_dc_spread_unbounded : Prop := forall ver ns p r nodes k l,
+  is_v2 ver = true -> NoDup (map fst nodes) -> ~ In [] (map fst nodes) -> nodes <> [] ->
+  even_topology nodes k -> N.to_nat r <= length (dcs_of nodes) ->
+  rebalance ver ns p r [] nodes = Ok l ->
+  Forall (fun nl => NoDup (map (node_dc nodes) nl)) l.
 
 (* ---------- non-vacuity ---------- *)
 Open Scope N_scope.
